@@ -5,7 +5,7 @@ import (
 	"fmt"
 	"os"
 
-	"github.com/twpayne/go-geom/internal/zzverif/h"
+	_ "github.com/twpayne/go-geom/internal/zzverif/h"
 	"github.com/twpayne/go-geom/internal/zzverif/sym"
 )
 
@@ -15,7 +15,7 @@ func main() {
 		os.Exit(2)
 	}
 	name := sym.Load(os.Args[1])
-	f, ok := h.Registry[name]
+	f, ok := sym.Registry[name]
 	if !ok {
 		fmt.Println("SYM-ERROR unknown harness", name)
 		os.Exit(3)
